@@ -365,9 +365,12 @@ class C01(Check):
     lean_targets = ["drv_c01"]
     driver = "drv_c01"
     theorems = ["Pox.C01F.messages_ok", "Pox.C01F.codec_message_wf", "Pox.C01F.codec_stream_framing",
+                "Pox.C01F.packet_out_wf", "Pox.C01F.stats_reply_list_wf", "Pox.C01F.nxt_packet_in_wf", "Pox.C01F.nx_flow_mod_wf",
+                "Pox.FramingCodec.wf_via",
                 "Pox.C01.pack_eq_unpack", "Pox.C01.pack_eq_spec", "Pox.C01.len_eq",
                 "Pox.C01.registry_messages", "Pox.C01.registry_actions", "Pox.C01.registry_stats",
-                "Pox.C01.registry_queue_props", "Pox.C01.registry_total", "Pox.C01.roundtrip", "Pox.C01.actions_stream",
+                "Pox.C01.registry_queue_props", "Pox.C01.registry_total", "Pox.C01.roundtrip", "Pox.C01.roundtrip_regular",
+                "Pox.C01.vendor_action_in_list", "Pox.Layout.vendor_as_generic", "Pox.Spec.NX.sizes_ok", "Pox.Spec.NX.matchPad_law", "Pox.C01.actions_stream",
                 "Pox.C01.packet_out_roundtrip", "Pox.C01.flow_mod_data_roundtrip",
                 "Pox.C01.stats_reply_list_roundtrip", "Pox.C01.stats_body_roundtrip", "Pox.C01.nx_flow_mod_roundtrip",
                 "Pox.C01.nxt_packet_in_roundtrip", "Pox.C01.match_roundtrip", "Pox.C01.match_roundtrip_fm", "Pox.C01.match_nonnormal_witness", "Pox.C01.nxm_roundtrip", "Pox.C01.nx_match_roundtrip",
@@ -392,7 +395,13 @@ class C01(Check):
                   "openflow.h layout (decide), __len__ = size of the layout, all 22 message / 13 action / 7 stats / 2 queue-property codes registered to the class with the "
                   "standard's structure; generic theorem roundtrip: for all field values, list lengths, nesting depths and trailing bytes decode(encode r ++ tl) = (r, tl), "
                   "len = __len__, header length field = byte count, re-encode reproduces the bytes. Irregular/untranslated classes are pinned by name.")
-    level_note = ("Proved for ALL inputs: generic Layout round trip + length-field exactness at any nesting depth (roundtrip, actions_stream); "
+    level_note = ("pack() is modelled as a FUNCTION of the object's value (the model has no state): the `reuse` cases check exactly that on the real code — the same "
+                  "component object (match, action, port, queue, stats entry) through hash()/==/show() and several messages in several orders must pack like a fresh equal "
+                  "object every time. roundtrip_regular is the statement about pack()/unpack() for classes with no flags; `roundtrip` is the same fact about the layout "
+                  "interpreter for every translated class. Nicira actions inside action lists decode to ofp_action_vendor_generic (vendor_action_in_list: same bytes, "
+                  "re-encodes identically; equality with the original needs fixes/C01-K4). nx_flow_mod / nxt_packet_in are compared by the oracle with the nicira-ext.h layout "
+                  "(Spec/NXLayouts.lean, pad to 8 computed in the oracle) for nx_match lengths covering every residue mod 8. "
+                  "Proved for ALL inputs: generic Layout round trip + length-field exactness at any nesting depth (roundtrip, actions_stream); "
                   "packet_out_roundtrip; flow_mod_data_roundtrip (the `data` magic: 1 or 3 framed messages, buffer_id taken from the packet-in, barrier + re-injecting packet-out); "
                   "stats_reply_list_roundtrip / stats_body_roundtrip (body dispatch by type code, list bodies with nested actions); match_roundtrip (both modes, normal matches) and "
                   "match_roundtrip_fm (flow_mod mode, EVERY in-range match decodes to fix(m)); NXM TLV framing (nxm_roundtrip, nx_match_roundtrip); nx_flow_mod_roundtrip, "
@@ -458,10 +467,21 @@ class C01(Check):
         self.reply_single = {code: cls for code, cls, is_list in regs["statsReplies"] if not is_list}
         self.request_cls = dict(regs["statsRequests"])
 
+    PIN_MODULE = "PoxModel.Properties.C01Pins"
+    PIN_THEOREMS = ["Pox.C01.untranslated_pinned", "Pox.C01.irregular_pinned", "Pox.C01.uncovered_pinned", "Pox.C01.spec_table_tied",
+                    "Pox.C01.outL_is", "Pox.C01.vendorGenericTied", "Pox.C01.outAction_ok", "Pox.C01.psElem_ok"]
+
     def translate(self):
         text, classes, untranslated, regs = codec_layouts.render(common.REPO)
         path = os.path.join(common.LEAN, "PoxModel", "Generated", "Layouts.lean")
         changed = common.write_if_changed(path, text)
+        # the pins / instances over today's classes: when they build on this tree they are part of the audited obligations
+        # (built with the property module, `#print axioms` of every pin); when they do not, the property theorems still
+        # stand on their own and the failure is reported in the evidence (pins_failed, untied_classes) — never silently
+        self._pins = self.pins()
+        if self._pins.get("pins_ok"):
+            self.extra_modules = list(type(self).extra_modules) + [self.PIN_MODULE]
+            self.theorems = list(type(self).theorems) + self.PIN_THEOREMS
         return [(path, changed)]
 
     # ------------------------------------------------------------------ object -> record (by translated layout)
@@ -1309,7 +1329,8 @@ class C01(Check):
               "untied_classes": {n: self.untranslated[n][:160] for n in untied},
               "untied_in_spec_table": sorted(n for n in untied if n in self.spec["table"]),
               "newly_translated_classes": sorted(EXPECTED_UNTRANSLATED - set(self.untranslated))}
-        ev.update(self.pins())
+        ev.update(getattr(self, "_pins", None) or self.pins())
+        ev["pins_audited"] = bool(ev.get("pins_ok"))
         if untied:
             common.log("C01: %d class(es) not read by the translator on this tree, hence not tied to a layout theorem on this run "
                        "(oracle + spec-layout comparison still ran on the real code): %s" % (len(untied), ", ".join(untied)))
